@@ -60,7 +60,7 @@ pub fn random_name(rng: &mut Rng) -> Vec<u8> {
         0 => Vec::new(),
         // control characters inside the name: the kernel stores whatever PR_SET_NAME was given
         11 => rng.pick(&[&b"ab\ncd"[..], b"\nworker", b"l1\nl2\n\nl4", b"x\n", b"a\tb\rc", b"\n\n", b"end\n \n"]).to_vec(),
-        12 => rng.pick(&[&b"a\0hidden"[..], b"\x01\x02\x7f", b"q\x1b[31m", b"fifteen-chars-x", b"\xc3\xa9\n\xc3\xa9"]).to_vec(),
+        12 => rng.pick(&[&b"a\0hidden"[..], b"\x01\x02\x7f", b"q\x1b[31m", b"fifteen-chars-x", b"\xc3\xa9\n\xc3\xa9", b"DOM\\user", b"c:\\tmp\\x", b"lit\\nnl", b"\\", b"tab\\there"]).to_vec(),
         1 => b"  ".to_vec(),
         2 => "thr\u{e9}\u{e4}d-\u{4e16}".as_bytes().to_vec(),
         3 => b"fifteen-chars-xx".to_vec(),
@@ -288,7 +288,9 @@ pub fn random_opts(rng: &mut Rng, sc: &Scenario, k: &OptKnobs) -> DumpOpts {
                     let (a, l) = *rng.pick(&sc.pattern_regions);
                     a + rng.below(l)
                 } else {
-                    0x7fff_ffff_d000
+                    // (never the main thread's stack: that thread runs, and what is captured there
+                    // changes from one dump to the next)
+                    sentinels.iter().find(|s| s.stack_len > 0).map(|s| s.regs.gpr[RSP]).unwrap_or(0x1000)
                 };
                 let rip = if !sc.exec_regions.is_empty() {
                     let (a, l) = *rng.pick(&sc.exec_regions);
